@@ -80,6 +80,12 @@ type Rec struct {
 	failKind string
 	count    int
 	fired    bool
+	// further faults of the same call (ArmMore): a second single position, and / or every operation from
+	// stickyFrom on (a storage that stays down)
+	failAt2    int
+	failKind2  string
+	stickyFrom int
+	firedKinds []string
 }
 
 // New wraps inner
@@ -108,7 +114,26 @@ func (l *loaderStore) LoadByNodeId(ctx context.Context, msg nodeenrollment.Messa
 func (s *Rec) Arm(k int, kind string) {
 	s.mu.Lock()
 	s.failAt, s.failKind, s.count, s.fired = k, kind, 0, false
+	s.failAt2, s.failKind2, s.stickyFrom, s.firedKinds = 0, "", 0, nil
 	s.mu.Unlock()
+}
+
+// ArmMore adds to the armed fault (call after Arm): operation k2 fails with kind2 as well (k2 = 0: no second
+// position), and with sticky every operation from the first armed position on fails with the first kind
+func (s *Rec) ArmMore(k2 int, kind2 string, sticky bool) {
+	s.mu.Lock()
+	s.failAt2, s.failKind2 = k2, kind2
+	if sticky {
+		s.stickyFrom = s.failAt
+	}
+	s.mu.Unlock()
+}
+
+// FiredKinds returns the kinds of the faults delivered since Arm, in order
+func (s *Rec) FiredKinds() []string {
+	s.mu.Lock()
+	defer s.mu.Unlock()
+	return append([]string{}, s.firedKinds...)
 }
 
 // Count returns the number of operations since Arm
@@ -145,9 +170,17 @@ func (s *Rec) pre(kind string, m proto.Message, id string, b []byte) error {
 	s.seq++
 	s.count++
 	op := Op{Seq: s.seq, Kind: kind, Type: TypeName(m), ID: id, Bytes: b}
-	if s.failAt > 0 && s.count == s.failAt {
+	fk := ""
+	switch {
+	case s.failAt > 0 && s.count == s.failAt, s.stickyFrom > 0 && s.count >= s.stickyFrom:
+		fk = s.failKind
+	case s.failAt2 > 0 && s.count == s.failAt2:
+		fk = s.failKind2
+	}
+	if fk != "" {
 		s.fired = true
-		err := faultErr(s.failKind)
+		s.firedKinds = append(s.firedKinds, fk)
+		err := faultErr(fk)
 		op.Err, op.Fault = err.Error(), true
 		s.ops = append(s.ops, op)
 		return err
